@@ -126,7 +126,7 @@ def leaf_value(f: Dict[str, Any], cls: str, wd: str, fixture: str) -> Any:
         return {"below": "", "above": "bogus_value", "wrongtype": 5, "nan": NAN, "pinf": INF, "ninf": -INF,
                 "huge": T.HUGE_INT, "empty": [] if k == "enum" else {}}[cls]
     if k == "list":
-        return {"below": [], "above": ["bogus_value"], "wrongtype": "x", "nan": [NAN], "pinf": [INF], "ninf": [-INF],
+        return {"below": [], "above": ["bogus_value"], "wrongtype": 5, "nan": [NAN], "pinf": [INF], "ninf": [-INF],
                 "huge": [T.HUGE_INT], "empty": {}}[cls]
     if k == "map":
         key = "EditGraph" if "cooldowns" in f["path"] else "supports"
@@ -539,6 +539,7 @@ def eval_vector(case, wd: str, opts: Dict[str, Any]) -> Dict[str, Any]:
         if spec == "REJECT" and ref["verdict"] == "reject":
             msgs = [_SUGG.sub("", m) for m in ref["msgs"]]
             missing = []
+            missing_el = []
             for e in case["faults"]:
                 c = dict(elems)[e]
                 if e <= T.NF:
@@ -557,12 +558,14 @@ def eval_vector(case, wd: str, opts: Dict[str, Any]) -> Dict[str, Any]:
                             hit = any(m.startswith(sec + " ") and "keys must be strings" in m for m in msgs)
                 if not hit:
                     missing.append(elem_name(e))
+                    missing_el.append([e, c])
             for r in case["rules"]:
                 want = T.RULES["R%d" % r][1]
                 if not any(m.startswith(want) for m in msgs):
                     missing.append(f"R{r}")
             if missing:
-                fail("RejectNamesFaults", {"cause": "fault-not-named", "field": "|".join(missing)}, f"rejected, but no message names {missing}: {ref['msgs'][:4]}")
+                fail("RejectNamesFaults", {"cause": "fault-not-named", "field": "|".join(missing), "_elems": missing_el},
+                     f"rejected, but no message names {missing}: {ref['msgs'][:4]}")
             else:
                 res["ok"].append("RejectNamesFaults")
     # ---- yaml text for the CLI --------------------------------------------------------------
@@ -854,6 +857,7 @@ def check(run) -> None:
     per_sig: Dict[str, int] = collections.Counter()
     from ..core import canon
     single_sig: Dict[Tuple[str, str, int, int], Dict[str, Any]] = {}
+    single_any: set = set()
 
     def record(clause, sig, msg, case, extra=None):
         s = dict(sig)
@@ -876,10 +880,22 @@ def check(run) -> None:
             for clause, sig, msg, case in o["fails"]:
                 els = classes_of(case)
                 corner = len(case["v"]) == 1 and case["v"][0][0] == 0
+                if "_elems" in sig:
+                    # a fault that is not named because the validator does not see it at all is the element's own
+                    # AcceptedWithinRanges class (shown by its single-fault vector), not a new one
+                    sig = dict(sig)
+                    rest = [(e, c) for e, c in sig.pop("_elems") if ("AcceptedWithinRanges", e, c) not in single_any]
+                    rules = [x for x in str(sig.get("field", "")).split("|") if re.fullmatch(r"R\d", x)]
+                    if not rest and not rules:
+                        counts["fault_not_named_explained_by_single"] += 1
+                        continue
+                    sig["field"] = "|".join([elem_name(e) for e, _c in rest] + rules)
                 if phase == 1 and not corner and len(els) == 1:
+                    single_any.add((clause, els[0][0], els[0][1]))
                     single_sig.setdefault((clause, sig.get("cause"), els[0][0], els[0][1]), sig)
                 elif phase == 2 and ("field" not in sig or "|" in str(sig.get("field"))):
-                    known = [single_sig[(clause, sig.get("cause"), e, c)] for e, c in els if (clause, sig.get("cause"), e, c) in single_sig]
+                    alt = ["raises-under-contract-valid-config", "raises-under-unchecked-value"] if clause == "EngineRunsUnderAccepted" else [sig.get("cause")]
+                    known = [single_sig[(clause, ca, e, c)] for ca in alt for e, c in els if (clause, ca, e, c) in single_sig]
                     if known:
                         sig = known[0]
                         counts["pair_violation_explained_by_single"] += 1
